@@ -1457,3 +1457,30 @@ Theorem reentrant_flag_set_iff : forall c s,
   memo_of s c = None ->
   reent (gh (snd (begin_force c s))) = (reent (gh s) || existsb (Nat.eqb c) (forcing (gh s))).
 Proof. intros c s H. unfold begin_force. rewrite H. reflexivity. Qed.
+
+(* ================================================================= 13. a bare variable as lazy argument *)
+
+(* forcing a lazy argument that is a plain variable is the LEXICAL look-up of that variable along
+   the static chain captured at the call (innermost frame of the caller's chain that binds it),
+   in the store at force time -- never a look-up along the chain of callers *)
+Theorem force_variable_is_lexical_lookup : forall n c s x env,
+  nth_error (thunks s) c = Some (mkThunk (TSrc (EVar x) env) None) ->
+  apply (S (S n)) (VPrim PForce) [VThunk c] s =
+  match lookup_chain (frames (core s)) env x with
+  | Some (_, v) => (Done v, finished c v (started c s))
+  | None => (Sig (SErr EUnbound), started c s)
+  end.
+Proof.
+  intros n c s x env Ht.
+  destruct (started_same c s) as (Ec & _ & _).
+  assert (Hev : eval (S n) env (EVar x) (started c s) =
+                match lookup_chain (frames (core s)) env x with
+                | Some (_, v) => (Done v, started c s)
+                | None => (Sig (SErr EUnbound), started c s)
+                end).
+  { rewrite <- Ec. generalize (started c s). intros st. simpl. unfold liftC, lookup_var.
+    destruct (lookup_chain (frames (core st)) env x) as [[f v]|]; destruct st; reflexivity. }
+  destruct (lookup_chain (frames (core s)) env x) as [[f v]|].
+  - rewrite (force_in_caller_env (S n) c s (EVar x) env _ _ Ht eq_refl Hev). reflexivity.
+  - rewrite (force_in_caller_env (S n) c s (EVar x) env _ _ Ht eq_refl Hev). reflexivity.
+Qed.
